@@ -17,4 +17,10 @@ P == [
    owner |-> ("a" :> "" @@ "b" :> "" @@ "c" :> "" @@ "d" :> ""),
    enabled |-> ("a" :> "none" @@ "b" :> "none" @@ "c" :> "none" @@ "d" :> "none"),
    maxJumps |-> 10 ]
+Ref == [wf |-> "", st |-> <<>>]
+Ideal == [wf |-> "", st |-> <<>>]
+Racy == {}
+ExecMax == <<>>
+CheckProps == {}
+MaxDepth == 400
 ====
